@@ -697,9 +697,9 @@ class RandomFacade:
     def __init__(self, tag='global'):
         self.tag = tag
 
-    def _d(self, kind, shape, **params):
+    def _d(self, kind, shape_, **params):
         c = ctx()
-        v = c.draw(kind, shape, **params)
+        v = c.draw(kind, shape_, **params)
         c.draws[-1]['source'] = self.tag
         return v
 
